@@ -183,10 +183,16 @@ CHECKS = {
        "numeric edge values, unicode, long strings), insert/replace/delete histories and queries on a collection with indexes and its index-free twin; every operation of "
        "the fragment is replayed on the Lean driver (same ids, same id lists modulo ties, same revisions, same error classes). Model-independent oracle: in-memory "
        "document list + Go interpreter of the query language on the explicitly stated typed view (get/search/order/paging/count/twin/unique/audit/reopen) and "
-       "ProofDocument + VerifyDocument accept genuine and reject 15 kinds of altered documents/proofs/states.",
+       "ProofDocument + VerifyDocument accept genuine and reject 15 kinds of altered documents/proofs/states. Document proofs: a model of pkg/verification.VerifyDocument "
+       "(entry loop, entries digest, header binding by id AND Alh on both ends of the dual proof, known-state checks, VerifyDualProofV2) with verifyDocument_sound "
+       "(an accepted proof: the shipped tx header has the id and the Alh of the proven end, one entry carries the key and H(EncodedDocument), entries hash to eH, known state "
+       "is an end, the dual proof verified, new state = target), verifyDocument_entry_in_tx (if the proof header with that id is the genuine header of the tx then "
+       "(md, document key, H(EncodedDocument)) is one of the tx's entries, or a collision of H) and bound_requires_alh; tied by `c19 vdoc` on every proof round: genuine "
+       "proofs for every relation known-state/document-tx (none, older, equal, newer) and ~20 kinds of coherent forgeries (payload+hValue+eH rebuilt, headers moved between "
+       "the ends, another tx under the proved id, same id other Alh, entries added/removed, cut rows), judged by a ground-truth oracle (stored revisions + genuine Alh per tx).",
   note=TB + " Modelled rather than verified / outside the Lean fragment (oracle only): UUID fields, LIKE/NOT_LIKE, secondary and unique indexes and the SQL planner, "
-       "field-name validation, id generation, document proofs (C01 covers the proof primitives), the protobuf payload encoding. Ties (equal sort keys) are compared "
-       "modulo order because the engine sorts with the unstable sort.Slice. float->int64 is modelled as amd64 CVTTSD2SI. Known findings (26 signatures, 9 root causes) "
+       "field-name validation, id generation, the protobuf payload encoding (for document proofs the outcome of decode+proto.Equal is an input of the model; the state signature is a predicate). Ties (equal sort keys) are compared "
+       "modulo order because the engine sorts with the unstable sort.Slice. float->int64 is modelled as amd64 CVTTSD2SI. Known findings (27 signatures, 10 root causes) "
        "are genuine defects of /repo, see known_findings.json.",
   technique="Lean 4 proof (list induction over a small executable spec) + differential correspondence against embedded/document and pkg/database + model-independent oracle with classified quirks",
   design="7/C19"),
